@@ -14,11 +14,11 @@ import (
 	"runtime"
 	"runtime/debug"
 	"runtime/pprof"
-	"time"
 	"sort"
 	"strings"
 	"sync"
 	"sync/atomic"
+	"time"
 
 	"github.com/thought-machine/please/src/core"
 	"github.com/thought-machine/please/src/query"
@@ -752,6 +752,26 @@ var (
 	founds  = map[string]*found{}
 )
 
+// Shrinking costs ~50 evaluations. To bound the run time on trees where a defect hits hundreds of thousands of cases,
+// at most shrinkCap violations per bucket (query, symptom, level kind, hidden flag, graph features, n) are shrunk and
+// classified individually; the rest of a bucket is only counted, and attributed to the bucket's most frequent class.
+const shrinkCap = 600
+
+type bucketInfo struct {
+	shrunk, overflow int
+	classes          map[string]int
+}
+
+var buckets = map[string]*bucketInfo{}
+
+func bucketOf(w *witness, symptom string) string {
+	lv := "limited"
+	if w.Level == -1 {
+		lv = "unlimited"
+	}
+	return fmt.Sprintf("%s|%s|%s|%v|hid=%v|prov=%v|n=%d", w.Query, symptom, lv, w.Hidden, hiddenCount(w.Names) > 0, w.Prov != nil, len(w.Names))
+}
+
 func record(state *core.BuildState, w witness, symptom string) {
 	// determinism: the same case must fail the same way again
 	for i := 0; i < 2; i++ {
@@ -759,11 +779,26 @@ func record(state *core.BuildState, w witness, symptom string) {
 			lib.Fatal("HARNESS-NONDETERMINISM: %+v gave %q then %q", w, symptom, s)
 		}
 	}
+	bk := bucketOf(&w, symptom)
+	foundMu.Lock()
+	bi := buckets[bk]
+	if bi == nil {
+		bi = &bucketInfo{classes: map[string]int{}}
+		buckets[bk] = bi
+	}
+	if bi.shrunk >= shrinkCap {
+		bi.overflow++
+		foundMu.Unlock()
+		return
+	}
+	bi.shrunk++
+	foundMu.Unlock()
 	sw := shrink(state, w, symptom)
 	cl := classOf(sw, symptom)
 	_, d := eval(state, &sw)
 	foundMu.Lock()
 	defer foundMu.Unlock()
+	bi.classes[cl]++
 	f := founds[cl]
 	if f == nil {
 		founds[cl] = &found{w: sw, detail: d, count: 1}
@@ -773,6 +808,27 @@ func record(state *core.BuildState, w witness, symptom string) {
 	if less(sw, f.w) {
 		f.w, f.detail = sw, d
 	}
+}
+
+// settleOverflow attributes the merely counted violations of each bucket to that bucket's most frequent class.
+func settleOverflow() int {
+	total := 0
+	for _, bi := range buckets {
+		if bi.overflow == 0 {
+			continue
+		}
+		best, bestN := "", -1
+		for cl, n := range bi.classes {
+			if n > bestN || (n == bestN && cl < best) {
+				best, bestN = cl, n
+			}
+		}
+		if f := founds[best]; f != nil {
+			f.count += bi.overflow
+		}
+		total += bi.overflow
+	}
+	return total
 }
 
 // ---------------------------------------------------------------------------------------------------------------
@@ -1054,6 +1110,17 @@ func provVariants(n int, es [][2]int, full bool) []*prov {
 	return out
 }
 
+var started = time.Now()
+
+// overBudget keeps the thorough tier under its 20-minute contract on a loaded machine (the run then reports exhaustive=false).
+func overBudget(r *lib.Run) bool {
+	if !r.Quick() && time.Since(started) > 16*time.Minute {
+		r.Capped = true
+		return true
+	}
+	return false
+}
+
 func main() {
 	r := lib.Start("C23", "exploration")
 	lib.Quiet()
@@ -1096,6 +1163,9 @@ func main() {
 		schs := schemes(sp.n, r.Quick())
 		if sp.n == 5 && sp.prov != "none" {
 			schs = schs[:3] // all-visible and one hidden child in both sort orders
+			if !r.Quick() {
+				schs = schs[:1] // thorough: 5-node graphs with provide decorations only in the all-visible scheme
+			}
 		} else if sp.n == 5 && r.Quick() {
 			schs = schs[1:3] // one hidden child, in both sort orders (the all-visible 5-node graphs are left to the thorough tier)
 		}
@@ -1112,7 +1182,7 @@ func main() {
 					state := &core.BuildState{} // Deps/FindRevdeps only read state.Graph and the (empty) include/exclude filters
 					for {
 						lo := atomic.AddUint64(&next, chunk) - chunk
-						if lo >= total || r.OutOfTime() {
+						if lo >= total || r.OutOfTime() || overBudget(r) {
 							return
 						}
 						for mask := lo; mask < lo+chunk && mask < total; mask++ {
@@ -1157,6 +1227,7 @@ func main() {
 		}
 	}
 	os.Stdout = realStdout
+	notShrunk := settleOverflow()
 	// report classes deterministically
 	var classes []string
 	for cl := range founds {
@@ -1184,6 +1255,6 @@ func main() {
 		Rule:               "one evaluation = one (labelled DAG, naming scheme, provide decoration, query, root[,to], level, hidden flag); all distinct by construction; non-trivial = the reference result set is non-empty (deps/revdeps) or a chain exists (somepath)",
 		Samples:            samples.List(),
 		Exhaustive:         exhaustive,
-		Extra:              map[string]any{"graphs": cnt.graphs, "spaces": spaceDesc, "queries_skipped_as_equivalent_to_a_smaller_graph": cnt.skipped},
+		Extra:              map[string]any{"graphs": cnt.graphs, "spaces": spaceDesc, "queries_skipped_as_equivalent_to_a_smaller_graph": cnt.skipped, "violations_counted_without_individual_shrinking": notShrunk},
 	})
 }
